@@ -603,9 +603,13 @@ Lemma safe_expr_S okf f rp e :
       if is_cmp op then (2 <=? f)%nat && safe_operand okf rp l && safe_operand okf rp r
       else safe_expr okf f rp l && safe_expr okf f rp r
   | EArithB _ l r => (2 <=? f)%nat && safe_operand okf rp l && safe_operand okf rp r
+  | EArithU _ x => (2 <=? f)%nat && is_paths x && safe_operand okf rp x
   | EExists (PRoot :: l) | EExists (PCurrent :: l) => (1 <=? f)%nat && forallb (safe_step okf f) l
   | _ => false
   end.
+Proof. reflexivity. Qed.
+Definition show_uarith (op : uarith) : list N := match op with UAdd => [43] | USub => [45] end.
+Lemma show_expr_unary pf f op x : show_expr pf (S f) (EArithU op x) = show_uarith op ++ show_expr pf f x.
 Proof. reflexivity. Qed.
 Lemma safe_step_S okf f p :
   safe_step okf (S f) p = match p with PFilter e => safe_expr okf f false e | _ => safe_inner p end.
@@ -664,6 +668,7 @@ Section Heads.
       + apply andb_true_iff in H. destruct H as [Hl _]. unfold show_atom at 1. destruct (is_logic l).
         * eexists; eexists; split; reflexivity.
         * destruct (IH rp l Hl) as (c & t & -> & Hc). eexists; eexists; split; [reflexivity|exact Hc].
+    - rewrite show_expr_unary. destruct op; eexists; eexists; split; reflexivity.
     - rewrite show_expr_arith. apply andb_true_iff in H. destruct H as [H Hr]. apply andb_true_iff in H. destruct H as [Hf Hl].
       apply Nat.leb_le in Hf. destruct f as [|[|k]]; try lia. rewrite (show_expr_operand pf okf rp k l Hl).
       destruct (show_operand_head rp l Hl) as (c & t & -> & Hc). eexists; eexists; split; [reflexivity|exact Hc].
@@ -739,6 +744,22 @@ Section Level.
     pose proof (ws_inner_expr_rt pf okf Hfl rp r rest Hr (atom_opnd_follow rest Hrest)) as R.
     unfold expr_atom. rewrite L. cbn [pbind]. rewrite F2. cbn [pbind palt].
     rewrite ws_skip_space, R. reflexivity.
+  Qed.
+
+  Lemma atom_unary op hd l : (hd = PRoot \/ hd = PCurrent) -> safe_operand okf rp (EPaths (hd :: l)) = true ->
+    atom_ok (show_uarith op ++ show_operand pf (EPaths (hd :: l))) (EArithU op (EPaths (hd :: l))).
+  Proof.
+    intros Hhd Hx rest Hrest. exists (multispace0 rest). split; [|right; reflexivity].
+    pose proof (ws_inner_expr_rt pf okf Hfl rp _ rest Hx (atom_opnd_follow rest Hrest)) as R.
+    rewrite <- app_assoc.
+    assert (W : forall o h X, (o = 43 \/ o = 45) -> (h = 36 \/ h = 64) -> ws_around (inner_expr rp) (o :: h :: X) = PErr)
+      by (intros o h X [-> | ->] [-> | ->]; destruct rp; reflexivity).
+    unfold expr_atom.
+    destruct Hhd as [-> | ->]; destruct op; cbn [show_uarith show_operand app] in *;
+      rewrite W by tauto; cbn [pbind palt];
+      match goal with |- context [punary (?o :: ?X)] =>
+        change (punary (o :: X)) with (POk X (if o =? 43 then UAdd else USub)) end;
+      cbn [pbind]; rewrite R; reflexivity.
   Qed.
 
   (* parenthesised expression *)
@@ -886,6 +907,11 @@ Section Level.
       rewrite (operand_not_logic okf rp l Hl), (operand_not_logic okf rp r Hr).
       rewrite (show_expr_operand pf okf rp k l Hl), (show_expr_operand pf okf rp k r Hr).
       apply atom_cmp; assumption.
+    - apply andb_true_iff in Hs. destruct Hs as [Hs Hy]. apply andb_true_iff in Hs. destruct Hs as [Hf Hp].
+      apply Nat.leb_le in Hf. destruct f as [|[|k]]; try lia.
+      rewrite show_expr_unary, (show_expr_operand pf okf rp k y Hy).
+      destruct y as [l| | | | |]; try discriminate Hp. destruct l as [|hd l]; [discriminate Hy|].
+      apply atom_unary; [destruct hd; try discriminate Hy; tauto|exact Hy].
     - apply andb_true_iff in Hs. destruct Hs as [Hs Hr]. apply andb_true_iff in Hs. destruct Hs as [Hf Hl].
       apply Nat.leb_le in Hf. destruct f as [|[|k]]; try lia.
       rewrite show_expr_arith.
@@ -1170,3 +1196,89 @@ End Top.
 (* C09: print, then parse — float-free paths, with no assumption about the float printer *)
 Theorem path_roundtrip pf ps : safe_path no_floats ps = true -> parse_json_path (show_json_path pf ps) = Ok ps.
 Proof. apply (path_roundtrip_floats pf no_floats). intros b H. discriminate H. Qed.
+
+(* ---------------------------------------------------------------- floats: the hypothesis is satisfiable and follows from facts about
+   nom's number readers *)
+Definition int_declines (p : pres Z) : Prop :=
+  match p with POk r _ => not_float_tail r = false | PErr => True | _ => False end.
+Lemma path_float_from_double pf b :
+  (exists d r, pf b = d :: r /\ (is_digit d = true \/ d = 45)) ->
+  (forall rest, val_follow rest = true ->
+     int_declines (pu64 (pf b ++ rest)) /\ int_declines (pi64 (pf b ++ rest)) /\ pdouble (pf b ++ rest) = POk rest b) ->
+  path_float_reads_back pf b.
+Proof.
+  intros (d & r & E & Hd) H. split.
+  - exists d, r. split; [exact E|]. destruct Hd as [Hd | ->]; [|repeat split; discriminate].
+    split; [apply digit_not_space; exact Hd|]. unfold is_digit in Hd. apply andb_true_iff in Hd. destruct Hd as [H1 H2].
+    apply N.leb_le in H1. apply N.leb_le in H2. split; lia.
+  - intros rest Hr. destruct (H rest Hr) as (U & I & D). rewrite E in *. cbn [app] in *.
+    destruct Hd as [Hd | ->].
+    + rewrite (path_value_digit d _ Hd), D.
+      destruct (pu64 (d :: r ++ rest)) as [r1 v1| | |]; cbn [int_declines] in U; try contradiction; cbn [pbind]; try rewrite U;
+        (destruct (pi64 (d :: r ++ rest)) as [r2 v2| | |]; cbn [int_declines] in I; try contradiction; cbn [pbind]; try rewrite I; reflexivity).
+    + rewrite path_value_minus, D.
+      destruct (pi64 (45 :: r ++ rest)) as [r2 v2| | |]; cbn [int_declines] in I; try contradiction; cbn [pbind]; try rewrite I; reflexivity.
+Qed.
+
+(* 1.5 printed as "1.5" reads back as the double 0x3FF8000000000000 *)
+Example path_float_reads_back_example : path_float_reads_back (fun _ => [49; 46; 53]) 4609434218613702656.
+Proof.
+  apply path_float_from_double; [exists 49, [46; 53]; split; [reflexivity|left; reflexivity]|].
+  intros rest Hr. destruct rest as [|c r]; [vm_compute; repeat split; reflexivity|].
+  cbn [val_follow hd_in] in Hr. apply existsb_eqb_in in Hr. destruct Hr as [<- | [<- | []]]; vm_compute; repeat split; reflexivity.
+Qed.
+
+(* the offset produced by `last - n` is an i32 (what I32.saturating_neg_in_range said of the old formula) *)
+Lemma last_minus_i32 v n : last_minus v = Some n -> (-2147483648 <= n <= 2147483647)%Z.
+Proof.
+  unfold last_minus. destruct (v =? - two63)%Z; [discriminate|].
+  destruct ((-2147483648 <=? - v) && (- v <=? 2147483647))%Z eqn:E; [|discriminate].
+  intros H. inversion H. subst n. apply andb_true_iff in E. destruct E as [E1 E2]. apply Z.leb_le in E1. apply Z.leb_le in E2. lia.
+Qed.
+
+(* ---------------------------------------------------------------- outside the class: what fails, and why it is excluded *)
+(* 1. before the fix of `last - n` (i32 then saturating_neg): the accepted path $[last+-2147483648] printed as
+      $[last-2147483648], and the old reader took only `last` from it, leaving "-2147483648]" (so the path was rejected);
+      the fixed reader takes all of it. *)
+Definition pindex_old (bs : list N) : pres index :=
+  palt (pmap IIndex (pi32 bs)) (fun _ =>
+  palt (pdo (r1, _) <- ptag_no_case LAST bs;
+        pdo (r2, _) <- pchar 45 (multispace0 r1);
+        pdo (r3, v) <- pi32 (multispace0 r2);
+        POk r3 (ILast (saturating_neg v))) (fun _ =>
+  palt (pdo (r1, _) <- ptag_no_case LAST bs;
+        pdo (r2, _) <- pchar 43 (multispace0 r1);
+        pdo (r3, v) <- pi32 (multispace0 r2);
+        POk r3 (ILast v)) (fun _ =>
+        pmap (fun _ => ILast 0) (ptag_no_case LAST bs)))).
+Lemma last_min_old_refuted :
+  pindex_old [108; 97; 115; 116; 43; 45; 50; 49; 52; 55; 52; 56; 51; 54; 52; 56; 93] = POk [93] (ILast (-2147483648)) /\
+  show_index (ILast (-2147483648)) = [108; 97; 115; 116; 45; 50; 49; 52; 55; 52; 56; 51; 54; 52; 56] /\
+  pindex_old (show_index (ILast (-2147483648)) ++ [93]) = POk [45; 50; 49; 52; 55; 52; 56; 51; 54; 52; 56; 93] (ILast 0) /\
+  pindex (show_index (ILast (-2147483648)) ++ [93]) = POk [93] (ILast (-2147483648)).
+Proof. vm_compute. repeat split; reflexivity. Qed.
+
+(* 2. an un-rooted path whose first name starts with a digit: ."5e" is accepted, prints as .5e, and that is rejected
+      (the predicate alternative runs nom's double on ".5e", whose cut(digit1) after the 'e' is a Failure); the same
+      name after `$` is fine. Hence first_ok. *)
+Lemma unrooted_digit_name_refuted pf :
+  parse_json_path [46; 34; 53; 101; 34] = Ok [PDotField [53; 101]] /\
+  show_json_path pf [PDotField [53; 101]] = [46; 53; 101] /\
+  parse_json_path (show_json_path pf [PDotField [53; 101]]) = Err EOther /\
+  parse_json_path (show_json_path pf [PRoot; PDotField [53; 101]]) = Ok [PRoot; PDotField [53; 101]].
+Proof. vm_compute. repeat split; reflexivity. Qed.
+
+(* 3. a non-negative Int64 literal exists only for a text with an explicit '+'; it prints without the sign and comes
+      back as UInt64 (numerically equal; Number's PartialEq in the crate calls them equal). Hence NInt z needs z < 0. *)
+Lemma plus_signed_literal_reparsed_unsigned pf :
+  let text := [36; 63; 40; 64; 46; 97; 32; 61; 61; 32; 43; 53; 41] in       (* $?(@.a == +5) *)
+  let ast k := [PRoot; PFilter (EBin OEq (EPaths [PCurrent; PDotField [97]]) (EValue (PVNum k)))] in
+  parse_json_path text = Ok (ast (NInt 5)) /\
+  parse_json_path (show_json_path pf (ast (NInt 5))) = Ok (ast (NUInt 5)).
+Proof. vm_compute. split; reflexivity. Qed.
+
+(* 4. names that need quoting are outside the class by definition: ."a b" is accepted and prints as .a b *)
+Lemma name_needing_quotes_refuted pf :
+  parse_json_path [36; 46; 34; 97; 32; 98; 34] = Ok [PRoot; PDotField [97; 32; 98]] /\
+  parse_json_path (show_json_path pf [PRoot; PDotField [97; 32; 98]]) = Err EOther.
+Proof. vm_compute. split; reflexivity. Qed.
